@@ -1,5 +1,6 @@
 import DoraModel.Wait.Hmap
 import DoraModel.Wait.Mtx
+import DoraModel.Wait.MtxCheck
 import Std.Data.HashSet
 /-!
 Driver of C09.
@@ -105,6 +106,7 @@ def parseTok (tok : String) : Tok :=
       | "lock", "WL", none, none => mk .lockWL
       | "unlock", "WL", none, none => mk .unlockWL
       | "cas", _, _, _ => if (idx? "S" obj).isSome then mk .casS else .bad s!"cas on {obj}"
+      | "load", _, _, none => if (idx? "S" obj).isSome then mk .casS else .bad s!"load of {obj}"
       | "lock", _, none, none =>
         match idx? "B" obj, idx? "J" obj with
         | some u, _ => mk (.lockB u)
@@ -144,7 +146,7 @@ def parseTok (tok : String) : Tok :=
 def showKind : Kind → String | .mtx => "m" | .cond => "c"
 def showRet : Ret → String | .idle => "idle" | .crit => "crit" | .block => "block"
 def showPc : PC → String
-  | .idle => "idle" | .crit => "crit" | .fin => "fin" | .panicked => "PANICKED" | .lk0 => "lk0" | .slow0 => "slow0"
+  | .idle => "idle" | .crit => "crit" | .fin => "fin" | .panicked _ => "PANICKED" | .lk0 => "lk0" | .slow0 => "slow0"
   | .slow2 => "slow2" | .eq0 k => s!"eq0.{showKind k}" | .eq1 k => s!"eq1.{showKind k}" | .eq2 k => s!"eq2.{showKind k}"
   | .eq3 k q => s!"eq3.{showKind k}.{q}" | .blkA k => s!"blkA.{showKind k}" | .blk1 k f => s!"blk1.{showKind k}.{f}"
   | .sleeping k => s!"sleeping.{showKind k}" | .wokenB k => s!"wokenB.{showKind k}"
@@ -180,13 +182,15 @@ def runTrace (st : Stats) (s0 : State) (toks : List String) : String × Stats :=
     | .ev e =>
       match accept s e with
       | .ok s' =>
+        if !st.states.contains s' then
+          match invCheck s' with
+          | some name => return (s!"reject {i} invariant {name} violated after [{tok}] | {showState s'}", st)
+          | none => pure ()
         st := { st with states := st.states.insert s', trans := st.trans.insert (s, e) }
         s := s'
-        steps := steps + 1
+        steps := steps + (match e.act with | .call _ => 0 | _ => 1)   -- `call` is a mark on the harness side
       | .error m => return (s!"reject {i} {m} [{tok}] | {showState s}", st)
     i := i + 1
-  if s.pcs.any (· == .panicked) then
-    return (s!"reject {i} model reached an assertion failure | {showState s}", st)
   let fin := s.pcs.countP (· == .fin)
   return (s!"accept {steps} W={s.w} CW={s.cw} fin={fin}", st)
 
